@@ -644,6 +644,7 @@ func (ls *LanceroSource) launchLanceroReader() {
 	go func() {
 		ticker := time.NewTicker(ls.readPeriod)
 		lastSuccesfulRead := time.Now()
+		carriedDataDrop := false // a read was discarded or re-aligned without producing a block: report it with the next one
 		for {
 			select {
 			case <-ls.abortSelf:
@@ -659,6 +660,7 @@ func (ls *LanceroSource) launchLanceroReader() {
 				framesUsed := math.MaxInt64
 				var lastSampleTime time.Time
 				var dataDropDetected bool
+				dataDropDetected, carriedDataDrop = carriedDataDrop, false
 				if len(ls.active) > 1 {
 					panic("Handling multiple devices not yet implemented")
 				}
@@ -672,11 +674,20 @@ func (ls *LanceroSource) launchLanceroReader() {
 					continue
 				}
 				q, p, ncols, err := lancero.FindFrameBits(b, lanceroFBOffset)
+				if err != nil || ncols <= 0 {
+					// No two frame starts in this read (bytes were lost): ncols can be 0 here, so this has
+					// to be tested before the division below. Discard the read and report the loss later.
+					fmt.Printf("cannot find frame starts in %d bytes: %v\n", len(b), err)
+					dev.card.ReleaseBytes(len(b))
+					dataDropDetected, carriedDataDrop = false, true
+					continue
+				}
 				nrows := (p - q) / ncols
 				if ncols != dev.ncols || nrows != dev.nrows || err != nil {
 					fmt.Printf("ncols have %v, want %v. nrows have %v, want %v, timeSinceLastSuccesfulRead %v\n",
 						ncols, dev.ncols, nrows, dev.nrows, timeSinceLastSuccesfulRead)
 					dev.card.ReleaseBytes(len(b))
+					carriedDataDrop = true // the discarded bytes are a loss, too
 					continue
 				}
 				firstWord := q
@@ -694,8 +705,12 @@ func (ls *LanceroSource) launchLanceroReader() {
 					// to the later call to ReleaseBytes
 					dropFromEnd := dev.frameSize - dropFromStart
 					if dropFromEnd <= 0 {
+						// The next frame start is a frame or more away (the lost bytes included a frame's first
+						// row). The bytes before it have just been released, so the next read starts on a
+						// frame boundary: go on from there instead of giving up.
 						fmt.Printf("firstWord %v, dropFromStart %v, dropFromEnd %v\n", firstWord, dropFromEnd, dropFromStart)
-						panic("expect dropFromEnd>0")
+						carriedDataDrop = true
+						continue
 					}
 					b = b[dropFromStart : len(b)-dropFromEnd]
 					fractionOfSampledPeriod := float64(dropFromEnd) / float64(dev.frameSize)
